@@ -146,6 +146,7 @@ def _strategy(draw, tier):
                   'f': fd, 'expect': 'ValueError'}
     n = Z.space_dim(sd)
     return {'space': sd, 'func': fd,
+            'probe_known': draw(st.integers(0, 3)) == 0,
             'x': draw(Z.vec(n)), 'y': draw(Z.vec(n)),
             'z': draw(Z.vec(n)),
             'sigma': draw(Z.scal_pos()),
@@ -217,15 +218,44 @@ def run_case(desc):
     yraw = np.asarray(desc['y'], float) * desc['yscale']
     zraw = np.asarray(desc['z'], float)
     pts = (xraw, yraw, zraw, float(desc['sigma']))
+    probe = bool(desc.get('probe_known', False))
     # children first (post-order): the innermost failing node names the
     # root cause
     out = None
     for node, npts in _post_order(B, pts):
         top = node is B
-        res = _guarded(node, npts, top, fd if top else {})
+        res = _guarded(node, npts, top, fd if top else {}, probe)
+        if res.status == 'excluded' and not top:
+            # a part lies in the region of a known finding: the whole
+            # expression is excluded (counted)
+            return Outcome('excluded', strata=res.strata)
         if top:
             out = res
     return out
+
+
+def known_region(B):
+    """Id of the known finding whose region contains this functional (the
+    predicate mirrors the signature patterns of known_findings.d/C08.json).
+    Such cases are excluded unless the descriptor asks to probe them
+    (``probe_known``: one generated case in four and every regress replay).
+    """
+    for b in B.nodes():
+        r = b.region
+        q = r.get('quad', '')
+        if 'opvec' in q or 'nonsym' in q:
+            return 'C08-K1'
+        if r.get('prior') == 'zeros':
+            return 'C08-K2'
+        g = r.get('group', '')
+        if (g.startswith('p1.0-') or g.startswith('pinf-')) and \
+                ('-cconst' in g or '-carray' in g):
+            return 'C08-K3'
+        if r.get('nuc') == 'wide':
+            return 'C08-K4'
+        if r.get('linneg'):
+            return 'C08-K6'
+    return None
 
 
 def _post_order(B, pts):
@@ -252,10 +282,10 @@ def _post_order(B, pts):
     yield B, pts
 
 
-def _guarded(B, pts, top, fd):
+def _guarded(B, pts, top, fd, probe):
     ctx = {}
     try:
-        return _check_node(B, pts, top, fd, ctx)
+        return _check_node(B, pts, top, fd, ctx, probe)
     except (Violation, HarnessError):
         raise
     except Exception as e:  # noqa
@@ -270,7 +300,7 @@ def _guarded(B, pts, top, fd):
             ctx['who'], ctx['region'], csig.split('|', 2)[2]), tb[-1200:])
 
 
-def _check_node(B, pts, top, fd, ctx):
+def _check_node(B, pts, top, fd, ctx, probe=True):
     sd, space = B.sd, B.space
     xraw, yraw, zraw, sigma = pts
     f, ref, geo = B.f, B.ref, B.geo
@@ -310,6 +340,12 @@ def _check_node(B, pts, top, fd, ctx):
         s = 'clause:' + clause
         if s not in strata:
             strata.append(s)
+
+    kr = known_region(B)
+    if kr is not None:
+        strata.append('known-region:' + kr)
+        if not probe:
+            return Outcome('excluded', strata=strata + ['excluded:' + kr])
 
     # ---- the conjugate ----------------------------------------------------
     expect = fd.get('expect')
@@ -698,7 +734,10 @@ def _check_node(B, pts, top, fd, ctx):
             except NotImplementedError:
                 p1 = None
             except Exception as e:  # noqa
-                if _huber_prox_known(B):
+                if _huber_prox_known(B) and not probe:
+                    p1 = None
+                    strata.append('excluded:C08-K5')
+                elif _huber_prox_known(B):
                     raise Violation(
                         sig('moreau-crash'),
                         '{}: {}'.format(type(e).__name__, str(e)[:200]))
@@ -768,13 +807,26 @@ def _sup_oracle(f, space, ye, start):
     v = np.asarray(start, float)
     best = g(v)
     ok = False
-    for _ in range(6):
+    size = 0.5
+    for _ in range(8):
+        # explicit initial simplex (scipy's default degenerates for start
+        # entries that are zero or tiny)
+        sim = [v.copy()]
+        for k in range(v.size):
+            w = v.copy()
+            w[k] += size
+            if g(w) >= 1e300:
+                w[k] -= 2 * size
+            sim.append(w)
         res = minimize(g, v, method='Nelder-Mead',
                        options={'xatol': 1e-10, 'fatol': 1e-14,
-                                'maxiter': 3000, 'maxfev': 6000})
+                                'maxiter': 3000, 'maxfev': 6000,
+                                'initial_simplex': np.array(sim)})
         improved = best - res.fun
-        v = res.x
+        if res.fun <= best:
+            v = res.x
         best = min(best, res.fun)
+        size = max(size * 0.2, 1e-3)
         if res.success and improved <= 1e-12 * (1 + abs(best)):
             ok = True
             break
